@@ -26,7 +26,14 @@ claim("C17",
       "an independent monitor of the property statement supplies the failing input. 'The episode's history and nothing else' on "
       "the coordinator side: defender-on sessions with several episodes on the real coordinator (followed by the coordinator "
       "model), with a monitor that the history handed to the defender is exactly the actions answered in the current episode. "
-      "The integration clause (detected -> Fail, end, fail reward) belongs to the coordinator model (C04/C05).",
+      "The integration clause in the coordinator model (Proofs/CoordDetect.v), for every reachable state, any number of agents and "
+      "any interleaving: C17_game_fail_only_by_detection (in one label the status of a non-Defender becomes Fail only in its own "
+      "game handler, by a counted step in which the goal was not reached and the C17_iff condition holds for the new action and "
+      "exactly the actions recorded in the agent's trajectory; that step ends the episode), C17_game_step_rule (every counted step "
+      "applies goal, then detection on the trajectory's actions, then the step limit; a terminal status ends the episode in that "
+      "step), C17_game_fail_reward (the reward task pays such an attacker the fail reward once and keeps the reason), with a "
+      "concrete run on the generated tables. Partial: the model's detection function has one draw per run (sessions script it); "
+      "independent draws per call are not modelled.",
       "Trusted: Coq kernel + VM; PrimFloat primitives (listed by Print Assumptions for C17_float only); translator "
       "harness/translate/defender.py; the harness replaces the module-level name `random` to script draws; "
       "decision logic is hand-modelled and tied by exhaustive differential execution only.",
@@ -119,7 +126,9 @@ C_NOTE = ("Trusted: Coq kernel + VM; the hand-written LTS Model/Coord.v is tied 
           "must agree) and by the dispatch translator with per-run obligations (Obl/DispatchOk.v); the in-process loop driver relies on "
           "CPython 3.12 asyncio internals; the cyst stub; the world is an oracle in the executable instance (tied separately, C02/C03); "
           "asyncio scheduling is abstracted to 'any enabled atomic segment may run'; TCP to one message per read with explicit "
-          "EOF/read-error/write-error events.")
+          "EOF/read-error/write-error events; connection addresses are fresh in the model - that the coordinator keeps nothing under a "
+          "departed agent's address is checked by the address-reuse twin (each session replayed with later connections coming from "
+          "departed agents' addresses must answer identically).")
 C_TECH = "machine-checked proof in Rocq (Coq 8.16) over a labelled-transition-system model of the coordinator (inductive invariant for all label sequences) + trace-following model/code correspondence + source-shape translator + direct monitor"
 
 claim("C01",
@@ -203,7 +212,9 @@ claim("C19",
       "C19_absent_gives_documented_default: for every getter of the source and EVERY configuration tree in which the key or a "
       "section on its path is missing, the getter returns the documented default - tied by running generated well-formed and "
       "malformed trees through the real getters and through the model inside Coq. A full-stack probe with dynamic addresses "
-      "checks that agents joining after re-labellings get the configured start position. The section readers (glue) are decided by correspondence: generated "
+      "checks that agents joining after re-labellings get the configured start position; a switch probe plays all 27 "
+      "true/false/absent combinations of the global-defender, trajectory and firewall switches and checks each switch's "
+      "behaviour-level effect in every combination. The section readers (glue) are decided by correspondence: generated "
       "configurations over all subsets of optional keys go through the real ConfigParser, start_tasks and joins; parsed start "
       "position / win condition are compared with the listed items, the join reply with the configuration, the initial view with "
       "the model inside Coq and with the statement (monitor). One known finding: the documented 'all_attackers' wildcard (D25).",
@@ -241,7 +252,7 @@ claim("C20",
       "encodings <-> equal views), so comparing decoded transcripts across processes is well defined. The property itself - "
       "independence of process, hash randomisation and wall-clock time, and the reproducible configuration hash - is a runtime "
       "property no executable model exhibits; it is decided by cross-process runs: identical multi-episode probe sessions (three attackers with random start hosts and a "
-      "defender, collective resets) "
+      "defender, collective resets; also with the global defender on, so that its detection draws are part of the transcripts) "
       "(static and dynamic addresses, all playable shipped scenarios, several seeds) in separate interpreter processes with "
       "different PYTHONHASHSEED values must give identical decoded transcripts, address maps and hashes; hashes must differ between "
       "scenarios. Labelled partial.",
